@@ -383,13 +383,6 @@ def discTo (p : Nat) : Obs → Bool
   | .notify q _ _ _ _ => q = p
   | _ => false
 
-/-- the peer an observation is sent to -/
-def peerOf : Obs → Option Nat
-  | .notify q _ _ _ _ => some q
-  | .ucNotify q => some q
-  | .reply q _ _ => some q
-  | .ret _ => none
-
 theorem filter_map_nodup (l : List Nat) (hl : l.Nodup) (g : Nat → Obs) (p : Nat)
     (hg : ∀ q, discTo p (g q) = decide (q = p)) :
     (l.map g).filter (discTo p) = if p ∈ l then [g p] else [] := by
@@ -411,5 +404,39 @@ theorem filter_ucNotify (l : List Nat) (p : Nat) : (l.map Obs.ucNotify).filter (
   induction l with
   | nil => rfl
   | cons q qs ih => simp [List.filter_cons, discTo, ih]
+
+/-- observations addressed to peer p -/
+def toPeer (p : Nat) (o : Obs) : Bool := peerOf o == some p
+
+/-- what a healthy peer receives does not depend on which other peers fail -/
+theorem delivered_to_healthy (failing : List Nat) (p : Nat) (hp : p ∉ failing) (os : List Obs) :
+    (delivered failing os).filter (toPeer p) = os.filter (toPeer p) := by
+  unfold delivered
+  rw [List.filter_filter]
+  apply List.filter_congr
+  intro o _
+  cases hq : peerOf o with
+  | none => simp [toPeer, hq]
+  | some q =>
+    by_cases hqp : q = p
+    · subst hqp; simp [toPeer, hq, hp]
+    · simp [toPeer, hq, hqp]
+
+/-- … and a failing peer receives nothing -/
+theorem delivered_to_failing (failing : List Nat) (p : Nat) (hp : p ∈ failing) (os : List Obs) :
+    (delivered failing os).filter (toPeer p) = [] := by
+  rw [List.filter_eq_nil_iff]
+  intro o ho
+  simp only [delivered, List.mem_filter] at ho
+  cases hq : peerOf o with
+  | none => simp [toPeer, hq]
+  | some q =>
+    have := ho.2
+    simp only [hq, Bool.not_eq_true', List.contains_eq_mem, decide_eq_false_iff_not] at this
+    simp only [toPeer, hq, beq_iff_eq, Option.some.injEq]
+    intro h; subst h; exact this hp
+
+theorem discTo_toPeer (p : Nat) (o : Obs) (h : discTo p o = true) : toPeer p o = true := by
+  cases o <;> simp_all [discTo, toPeer, peerOf]
 
 end Spine.LTree
